@@ -25,6 +25,15 @@ func OutDir() string {
 	return "/verif"
 }
 
+// HomeDir is where the committed framework lives (known_findings.json, known/): VERIF_HOME,
+// default /verif. It differs from OutDir only when results are redirected (seeded-mutant runs).
+func HomeDir() string {
+	if d := os.Getenv("VERIF_HOME"); d != "" {
+		return d
+	}
+	return "/verif"
+}
+
 type knownFinding struct {
 	Property  string `json:"property"`
 	Signature string `json:"signature"`
@@ -69,8 +78,8 @@ func Start(id, level, rule string) *Rec {
 		distinct: map[string]struct{}{}, counters: map[string]int64{}, extra: map[string]interface{}{},
 		known: map[string]string{}, knownSeen: map[string]int64{}, viol: map[string]int64{},
 		violReplay: map[string]string{}, srand: SubRand(Seed(), "samples/"+id)}
-	paths := []string{filepath.Join(OutDir(), "known_findings.json")}
-	more, _ := filepath.Glob(filepath.Join(OutDir(), "known", "*.json"))
+	paths := []string{filepath.Join(HomeDir(), "known_findings.json")}
+	more, _ := filepath.Glob(filepath.Join(HomeDir(), "known", "*.json"))
 	sort.Strings(more)
 	for _, p := range append(paths, more...) {
 		b, err := ioutil.ReadFile(p)
